@@ -19,7 +19,7 @@ def freeJumpL : List Stmt → Bool
   | s :: ss => freeJumpS s || freeJumpL ss
 def freeJumpH : List Handler → Bool
   | [] => false
-  | .mk _ b :: hs => freeJumpL b || freeJumpH hs
+  | .mk _ _ b :: hs => freeJumpL b || freeJumpH hs
 end
 
 def withOk (cfg : Cfg) (items : List WItem) : Bool :=
@@ -40,7 +40,7 @@ def confL (cfg : Cfg) : List Stmt → Bool
   | s :: ss => confS cfg s && confL cfg ss
 def confH (cfg : Cfg) : List Handler → Bool
   | [] => true
-  | .mk _ b :: hs => confL cfg b && confH cfg hs
+  | .mk _ _ b :: hs => confL cfg b && confH cfg hs
 end
 
 /-! ### small agreement lemmas (one per combinator) -/
@@ -61,41 +61,56 @@ theorem handlingIn_agree (r : Res) (h : Option Exc) : PS.handlingIn r h = Py.han
 theorem withFinish_single (m : WItem) (r : Res × World) :
     lift (PS.withFinish [m] r) = Py.exit1 m (lift r) := by
   rcases r with ⟨(_ | mk) | e, w⟩
-  · simp [PS.withFinish, PS.exitAll, Py.exit1, lift, Res.toOut]
-  · cases mk <;> simp [PS.withFinish, PS.exitAll, Py.exit1, lift, Res.toOut, Marker.toOut]
-  · simp only [PS.withFinish, PS.exitAll, Py.exit1, lift, Res.toOut, List.reverse_cons, List.reverse_nil,
-      List.nil_append, List.foldl_cons, List.foldl_nil, Bool.true_and]
-    cases m.suppress <;> simp
+  · cases hx : m.exitRaises <;> simp [PS.withFinish, PS.exitAll, Py.exit1, lift, Res.toOut, hx]
+  · cases hx : m.exitRaises <;> cases mk <;> simp [PS.withFinish, PS.exitAll, Py.exit1, lift, Res.toOut, Marker.toOut, hx]
+  · cases hx : m.exitRaises <;> cases hs : m.suppress <;>
+      simp [PS.withFinish, PS.exitAll, Py.exit1, lift, Res.toOut, hx, hs]
 
 theorem selectHandler_confL (cfg : Cfg) (sub : Nat → Nat → Bool) (e : Exc) :
-    ∀ hs hb, confH cfg hs = true → selectHandler sub e hs = some hb → confL cfg hb = true := by
+    ∀ hs w hb w', confH cfg hs = true → selectHandler sub e hs w = (.found hb, w') → confL cfg hb = true := by
   intro hs
   induction hs with
-  | nil => intro hb _ h; simp [selectHandler] at h
+  | nil => intro w hb w' _ h; simp [selectHandler] at h
   | cons hd tl ih =>
-    intro hb hc h
+    intro w hb w' hc h
     cases hd with
-    | mk cs body =>
+    | mk cs pre body =>
       simp only [confH, Bool.and_eq_true] at hc
-      simp only [selectHandler] at h
-      split at h
-      · simp only [Option.some.injEq] at h; subst h; exact hc.1
-      · exact ih hb hc.2 h
+      cases pre with
+      | raises i c => simp [selectHandler] at h
+      | tick i =>
+        simp only [selectHandler] at h
+        split at h
+        · simp only [Prod.mk.injEq, HSel.found.injEq] at h; rw [← h.1]; exact hc.1
+        · exact ih _ hb w' hc.2 h
+      | plain =>
+        simp only [selectHandler] at h
+        split at h
+        · simp only [Prod.mk.injEq, HSel.found.injEq] at h; rw [← h.1]; exact hc.1
+        · exact ih _ hb w' hc.2 h
 
 theorem selectHandler_free (sub : Nat → Nat → Bool) (e : Exc) :
-    ∀ hs hb, freeJumpH hs = false → selectHandler sub e hs = some hb → freeJumpL hb = false := by
+    ∀ hs w hb w', freeJumpH hs = false → selectHandler sub e hs w = (.found hb, w') → freeJumpL hb = false := by
   intro hs
   induction hs with
-  | nil => intro hb _ h; simp [selectHandler] at h
+  | nil => intro w hb w' _ h; simp [selectHandler] at h
   | cons hd tl ih =>
-    intro hb hc h
+    intro w hb w' hc h
     cases hd with
-    | mk cs body =>
+    | mk cs pre body =>
       simp only [freeJumpH, Bool.or_eq_false_iff] at hc
-      simp only [selectHandler] at h
-      split at h
-      · simp only [Option.some.injEq] at h; subst h; exact hc.1
-      · exact ih hb hc.2 h
+      cases pre with
+      | raises i c => simp [selectHandler] at h
+      | tick i =>
+        simp only [selectHandler] at h
+        split at h
+        · simp only [Prod.mk.injEq, HSel.found.injEq] at h; rw [← h.1]; exact hc.1
+        · exact ih _ hb w' hc.2 h
+      | plain =>
+        simp only [selectHandler] at h
+        split at h
+        · simp only [Prod.mk.injEq, HSel.found.injEq] at h; rw [← h.1]; exact hc.1
+        · exact ih _ hb w' hc.2 h
 
 /-! ### a block without free jumps never completes with break/continue (reference semantics) -/
 
@@ -108,8 +123,7 @@ theorem finish_nojump (p : Out) (r : Out × World) (hp : NoJumpOut p) (hr : NoJu
 
 theorem exit1_nojump (m : WItem) (r : Out × World) (hr : NoJumpOut r.1) : NoJumpOut (Py.exit1 m r).1 := by
   rcases r with ⟨o, w⟩
-  cases o <;> simp_all [Py.exit1, NoJumpOut]
-  split <;> simp
+  cases hx : m.exitRaises <;> cases hs : m.suppress <;> cases o <;> simp_all [Py.exit1, NoJumpOut]
 
 def NJ (sub : Nat → Nat → Bool) (n : Nat) : Prop :=
   (∀ h s w, freeJumpS s = false → NoJumpOut (Py.exec sub n h s w).1) ∧
@@ -165,9 +179,11 @@ theorem nj_all (sub : Nat → Nat → Bool) : ∀ n, NJ sub n := by
           | ret v => simp [NoJumpOut]
           | raise e =>
             simp only
-            cases hsel : selectHandler sub e hs with
-            | none => simp [NoJumpOut]
-            | some hbod => exact ihB _ _ _ (selectHandler_free sub e hs hbod hh hsel)
+            rcases hsel : selectHandler sub e hs w1 with ⟨sel, w2⟩
+            cases sel with
+            | notFound => simp [NoJumpOut]
+            | raised e2 => simp [NoJumpOut]
+            | found hbod => exact ihB _ _ _ (selectHandler_free sub e hs w1 hbod w2 hh hsel)
         · exact ihB _ _ _ hfin
       | with_ items b =>
         simp only [freeJumpS] at hf
@@ -318,15 +334,20 @@ theorem agree_all (cfg : Cfg) (sub : Nat → Nat → Bool) : ∀ n, Agree cfg su
              exact finish_agree _ _)
         · -- exception
           simp only [Res.toOut]
-          cases hsel : selectHandler sub e hs with
-          | none =>
+          rcases hsel : selectHandler sub e hs w1 with ⟨sel, w1'⟩
+          cases sel with
+          | notFound =>
             simp only
-            rw [← ihB _ f w1 hfin]
+            rw [← ihB _ f w1' hfin]
             exact finish_agree _ _
-          | some hbod =>
+          | raised e2 =>
             simp only
-            have h2 := ihB (some e) hbod w1 (selectHandler_confL cfg sub e hs hbod hh hsel)
-            rcases hr2 : PS.stmts cfg sub n (some e) hbod w1 with ⟨r2, w2⟩
+            rw [← ihB _ f w1' hfin]
+            exact finish_agree _ _
+          | found hbod =>
+            simp only
+            have h2 := ihB (some e) hbod w1' (selectHandler_confL cfg sub e hs w1 hbod w1' hh hsel)
+            rcases hr2 : PS.stmts cfg sub n (some e) hbod w1' with ⟨r2, w2⟩
             rw [hr2] at h2
             simp only [lift] at h2
             rw [← h2]
